@@ -66,6 +66,7 @@ type Run struct {
 	Programs   int                 `json:"programs"`
 	StepBudget int64               `json:"step_budget"`
 	Stubs      map[string]string   `json:"stubs"`
+	Schedule   bool                `json:"schedule"`
 	Extra      map[string][]string `json:"extra"` // other packages that receive harness files: import path -> files
 }
 
@@ -401,7 +402,11 @@ func main() {
 				fmt.Printf("  run=%s assertion=%q inputs=%v\n", res.run.Name, v.Msg, v.Inputs)
 				nviol++
 			} else {
-				fmt.Printf("ENCODER-MISMATCH run=%s: counterexample for %q did not reproduce natively (%s) inputs=%v\n", res.run.Name, v.Msg, v.Native, v.Inputs)
+				label := "ENCODER-MISMATCH"
+				if res.run.Schedule {
+					label = "SCHEDULE-NOT-REPRODUCED-NATIVELY (40 attempts; the interleaving cannot be forced on the native runtime)"
+				}
+				fmt.Printf("%s run=%s: counterexample for %q did not reproduce natively (%s) inputs=%v\n", label, res.run.Name, v.Msg, v.Native, v.Inputs)
 				inconclusive = true
 			}
 		}
@@ -637,7 +642,11 @@ func (ld *loader) native(pkgs []*packages.Package, run Run, cases []sym.Case) ([
 		ov[filepath.Join(dir, "zz_verif_replay_test.go")] = testPath
 		ovPath := filepath.Join(ld.scratch, "overlay_"+run.Name+".json")
 		writeJSON(ovPath, map[string]interface{}{"Replace": ov})
-		cmd = exec.Command("go", "test", "-v", "-vet=off", "-count=1", "-run", "^TestVerifReplay$", "-overlay", ovPath, "-timeout", "300s", run.Pkg)
+		count := "-count=1"
+		if run.Schedule && len(cases) > 0 && cases[0].End != "ok" {
+			count = "-count=40" // a schedule cannot be forced natively: repeat counterexample replays
+		}
+		cmd = exec.Command("go", "test", "-v", "-vet=off", count, "-run", "^TestVerifReplay$", "-overlay", ovPath, "-timeout", "300s", run.Pkg)
 		cmd.Dir = repoDir
 	}
 	cmd.Env = append(goEnv, "VERIF_CASES="+casesPath)
@@ -648,8 +657,29 @@ func (ld *loader) native(pkgs []*packages.Package, run Run, cases []sym.Case) ([
 		if m := caseLine.FindStringSubmatch(strings.TrimSpace(line)); m != nil {
 			i, _ := strconv.Atoi(m[1])
 			if i < len(outs) {
+				if outs[i].status == "" {
+					got++
+				}
+				if run.Schedule && outs[i].status == "MATCH" && cases[i].End != "ok" {
+					continue // an earlier repetition already reproduced the violation
+				}
+				if run.Schedule && cases[i].End == "ok" && outs[i].status == "MISMATCH" {
+					continue // keep the first disagreement
+				}
 				outs[i] = nativeOut{status: m[2], line: m[3]}
-				got++
+			}
+		}
+	}
+	if run.Schedule && got != len(cases) {
+		// the process died: a panic in another goroutine reproduces a predicted crash
+		for i := range cases {
+			if outs[i].status == "" && strings.Contains(string(out), "panic: ") {
+				for _, known := range []string{"send on closed channel", "close of closed channel", "all goroutines are asleep"} {
+					if strings.Contains(string(out), known) && strings.Contains(cases[i].Msg, known) {
+						outs[i] = nativeOut{status: "MATCH", line: "native process crashed with: " + known}
+						got++
+					}
+				}
 			}
 		}
 	}
